@@ -174,13 +174,34 @@ def random_rotation(rng):
     return Rotation.random(random_state=int(rng.integers(2 ** 31))).as_matrix()
 
 
-def present(atoms, rng, p_index=None, rotate=True, translate=True, permute=True, unwrap=False):
+def primitive_of(atoms):
+    """the same crystal described in a primitive cell (spglib, no idealisation); the input itself if that fails"""
+    import spglib
+    from ase import Atoms
+
+    try:
+        res = spglib.standardize_cell((atoms.cell[:], atoms.get_scaled_positions(), atoms.numbers), to_primitive=True,
+                                      no_idealize=True, symprec=1e-5)
+        if res is None:
+            return atoms
+        lat, pos, num = res
+        if np.linalg.det(lat) < 0 or len(num) > len(atoms):
+            return atoms
+        return Atoms(numbers=num, scaled_positions=pos, cell=lat, pbc=True)
+    except Exception:
+        return atoms
+
+
+def present(atoms, rng, p_index=None, rotate=True, translate=True, permute=True, unwrap=False, primitive=False):
     """Another description of the same crystal: supercell / basis change P, proper rotation, translation,
     permutation, optionally atoms shifted out of the cell by lattice vectors."""
     from ase.build import make_supercell
 
     if p_index is None:
         p_index = int(rng.integers(len(PRESENT_P)))
+    if primitive:
+        # supercells and basis changes of the *primitive* lattice: sublattices that the conventional cell's multiples never reach
+        atoms = primitive_of(atoms)
     P = np.array(PRESENT_P[p_index])
     if p_index and np.linalg.det(P) < 0:
         # ase.build.make_supercell refuses left-handed matrices: re-describe the lattice directly
@@ -202,7 +223,7 @@ def present(atoms, rng, p_index=None, rotate=True, translate=True, permute=True,
     if permute:
         a2 = a2[rng.permutation(len(a2))]
     return a2, {"P": PRESENT_P[p_index], "p_index": p_index, "rotate": rotate, "translate": translate,
-                "permute": permute, "unwrap": unwrap}
+                "permute": permute, "unwrap": unwrap, "primitive": bool(primitive)}
 
 
 def qgrid(scaled):
